@@ -76,6 +76,8 @@ func (e *Engine) axioms() []axiom {
 		{"(el ", `(assert (forall ((b Int) (i Int)) (! (and (= (el_base (el b i)) b) (= (el_idx (el b i)) i) (< (el b i) (- 1000))) :pattern ((el b i)))))`},
 		{"(fa ", `(assert (forall ((c Int) (r Int)) (! (and (= (fa_code (fa c r)) c) (= (fa_root (fa c r)) r) (< (fa c r) (- 1000))) :pattern ((fa c r)))))`},
 		{"(pair ", `(assert (forall ((a Int) (b Int)) (! (and (= (pair_fst (pair a b)) a) (= (pair_snd (pair a b)) b)) :pattern ((pair a b)))))`},
+		{"(pair ", `(assert (= (pair 0 0) 0))`},
+		{"(pair_fst ", `(assert (and (= (pair_fst 0) 0) (= (pair_snd 0) 0)))`},
 		{"(boxreal ", `(assert (forall ((x Real)) (! (= (unboxreal (boxreal x)) x) :pattern ((boxreal x)))))`},
 		{"(strlen ", `(assert (forall ((s Int)) (! (>= (strlen s) 0) :pattern ((strlen s)))))`},
 		{"(strlen ", `(assert (= (strlen 0) 0))`},
